@@ -5,7 +5,7 @@ SPEC_FLAT = True   # the specification expectation is compared with the flattene
 RULE = ("E <method> <arg>: one Encoder method call on the real crate vs the extracted Coq model (chunk by chunk) and vs the reference "
         "encoder enc_pref of Spec/Cbor.v. Exhaustive: all u8, i8, u16, i16 arguments and all 256 simple values; boundary-dense "
         "(every 2^k+-3) plus seeded random arguments for the 32/64-bit methods, Int, char, tag/array/map heads; byte/text strings of "
-        "lengths 0,1,23,24,255,256,65535,65536 and random. ES: random forests (depth <= 3, definite and indefinite containers, chunked strings, tags) rendered as balanced Encoder call sequences, expectation = the generator's own reference serialiser. A case is non-trivial when the argument needs more than the initial byte "
+        "lengths 0,1,23,24,255,256,65535,65536 and random. EIT: ArrayIter/MapIter over iterators with exact, unbounded, lower-bound-only and upper-bound-only size hints. ES: random forests (depth <= 3, definite and indefinite containers, chunked strings, tags) rendered as balanced Encoder call sequences, expectation = the generator's own reference serialiser. A case is non-trivial when the argument needs more than the initial byte "
         "(argument >= 24 or a payload is present); distinct = distinct case lines.")
 ASSUMPTIONS = ["the chunk-recording sink sees exactly the bytes any other sink would (C13 covers the sinks)",
                "f16 conversion results are covered by C12; here only the framing of Encoder::f16 is compared with the model"]
@@ -69,6 +69,17 @@ def generate(tier, rng):
         if r in (8, 9): return (rng.choice(["a", "ai"]), [rtree(depth - 1) for _ in range(rng.choice([0, 1, 2, 3, 24]) if depth > 1 else rng.randrange(0, 3))])
         if r in (10, 11): return (rng.choice(["m", "mi"]), [rtree(depth - 1) for _ in range(2 * rng.randrange(0, 3))])
         return ("g", big, rtree(depth - 1))
+    # encode::ArrayIter / MapIter: definite form iff the size hint is exact, else begin … end
+    for n in list(range(0, 8)) + [23, 24, 25, 255, 256]:
+        vals = [rng.choice([0, 23, 24, 255, 256, 65535, rng.getrandbits(16)]) for _ in range(n)]
+        for kind in ("arr", "map"):
+            vs = vals if kind == "arr" else vals[: len(vals) // 2 * 2]
+            cnt = len(vs) if kind == "arr" else len(vs) // 2
+            body = b"".join(head(0, v) for v in vs)
+            for hint in ("exact", "unbounded", "lower", "filter"):
+                exact = hint == "exact" or (hint == "filter" and cnt == 0)   # filter over nothing reports (0, Some(0))
+                exp = (head(4 if kind == "arr" else 5, cnt) + body) if exact else (bytes([0x9f if kind == "arr" else 0xbf]) + body + b"\xff")
+                out.append("EIT %s %s %s =%s" % (kind, hint, ",".join(map(str, vs)) or ".", hexs(exp)))
     for _ in range(20000 if big else 3000):
         forest = [rtree(3) for _ in range(rng.randrange(1, 3))]
         out.append("ES %s =%s" % (";".join(c for t in forest for c in calls(t)), hexs(b"".join(ser_tree(t) for t in forest))))
@@ -77,6 +88,7 @@ def generate(tier, rng):
 def nontrivial(line, impl):
     t = line.split()
     if t[0] == "ES": return t[1].count(";") >= 2
+    if t[0] == "EIT": return t[3] != "."
     if len(t) < 3: return False
     if t[1] in ("bytes", "str"): return t[2] != "-"
     try: v = int(t[2])
@@ -86,4 +98,5 @@ def nontrivial(line, impl):
 def classify(line, impl):
     t = line.split()
     if t[0] == "ES": return "ES:%d" % min(9, t[1].count(";") + 1)
+    if t[0] == "EIT": return "EIT:" + t[1] + ":" + t[2]
     return t[1] + ("/err" if impl.startswith("err") else "")
